@@ -355,6 +355,19 @@ fn check(case: &Case, obs: &mut Obs) -> Verdict {
                 3 => ident_check::<usize>(c),
                 _ => ident_check::<u8>(c),
             });
+            // a narrow id type is wide enough whenever the number of DISTINCT items fits, however long
+            // the sequences are: the same items behind 300 copies of the first old item, ids in u8
+            let r = match r {
+                Ok(Ok(())) if distinct <= 200 && !c.old.is_empty() => guard(|| {
+                    let mut long_old = vec![c.old[0]; 300];
+                    long_old.extend_from_slice(&c.old);
+                    let mut long_new = vec![c.old[0]; 280];
+                    long_new.extend_from_slice(&c.new);
+                    let c2 = SeqCase { old: long_old, new: long_new, or: (c.or.0, c.or.1 + 300), nr: (c.nr.0, c.nr.1 + 280), ..c.clone() };
+                    ident_check::<u8>(&c2).map_err(|m| format!("ids in u8 for {} distinct items in sequences of {} / {} items: {}", distinct, c2.old.len(), c2.new.len(), m))
+                }),
+                other => other,
+            };
             obs.class("IdentifyDistinct");
             obs.class(["ids: u16", "ids: u32", "ids: u64", "ids: usize", "ids: u8"][ty as usize]);
             obs.class_if(c.or.0 > 0 || c.nr.0 > 0, "non-zero range offset");
@@ -455,7 +468,7 @@ impl Prop for C14 {
     type Case = Case;
     const ID: &'static str = "C14";
     fn rule() -> String {
-        "cases = Text(old, new, tokenizer, algorithm, str | [u8], newline_terminated override in {unset,true,false}) with item counts per side drawn from {0,1,2,50,51,99,100,101,102,150,200/300} (all four <=100 / >100 quadrants, and exactly 100/101 tokens), new related to old by in-place edits or independent, plus the shared text mixture | Ident(sequence pair, non-zero range offsets, integer type in {u16,u32,u64,usize, u8 only when <= 255 distinct items}). Oracle: TextDiff::ops == capture_diff_slices(alg, tokenizer(old), tokenizer(new)); the stored token slices are the tokenizer output; algorithm() == configured; newline_terminated() == override else (tokenizer == lines); TextDiffConfig::diff_slices likewise; for a fifth of the cases the same differential under a deadline that has already passed (capture_diff_slices_deadline); String / Cow<str> / Vec<u8> / Cow<[u8]> inputs give the ops of the borrowed text (texts up to 400 bytes). IdentifyDistinct: ids equal <=> items equal within and across sides, old_range()/new_range() == the caller's, lookups indexed with the caller's indices. ASCII texts are also diffed as a caller-defined case-insensitive DiffableStr (new side re-spelled in upper case): ops == sequence diff of its tokens, and == the ops of the identically spelled texts; IdentifyDistinct is also run over a Vec and a transparent back-to-front view of it at the same address. Non-trivial = a side has more than 100 tokens and the texts differ (Text) / non-zero offset with >= 2 distinct items (Ident); distinct = distinct serialized case.".into()
+        "cases = Text(old, new, tokenizer, algorithm, str | [u8], newline_terminated override in {unset,true,false}) with item counts per side drawn from {0,1,2,50,51,99,100,101,102,150,200/300} (all four <=100 / >100 quadrants, and exactly 100/101 tokens), new related to old by in-place edits or independent, plus the shared text mixture | Ident(sequence pair, non-zero range offsets, integer type in {u16,u32,u64,usize, u8 only when <= 255 distinct items}). Oracle: TextDiff::ops == capture_diff_slices(alg, tokenizer(old), tokenizer(new)); the stored token slices are the tokenizer output; algorithm() == configured; newline_terminated() == override else (tokenizer == lines); TextDiffConfig::diff_slices likewise; for a fifth of the cases the same differential under a deadline that has already passed (capture_diff_slices_deadline); String / Cow<str> / Vec<u8> / Cow<[u8]> inputs give the ops of the borrowed text (texts up to 400 bytes). IdentifyDistinct: ids equal <=> items equal within and across sides (also with u8 ids for up to 200 distinct items in sequences of more than 255 items), old_range()/new_range() == the caller's, lookups indexed with the caller's indices. ASCII texts are also diffed as a caller-defined case-insensitive DiffableStr (new side re-spelled in upper case): ops == sequence diff of its tokens, and == the ops of the identically spelled texts; IdentifyDistinct is also run over a Vec and a transparent back-to-front view of it at the same address. Non-trivial = a side has more than 100 tokens and the texts differ (Text) / non-zero offset with >= 2 distinct items (Ident); distinct = distinct serialized case.".into()
     }
     fn assumptions() -> Vec<String> {
         vec!["LCS inputs capped at 160 items".into()]
